@@ -29,7 +29,8 @@ pub enum T {
     Link(u8),
     Dir(u32, Vec<T>),
     /// an entry that is neither a plain private file, a directory nor a symlink: 0 = FIFO, 1 = UNIX
-    /// socket, 2 = a hard link to the canary file outside the layers directory
+    /// socket, 2 = a hard link to the canary file outside the layers directory, 3 = a regular file
+    /// whose name is not valid UTF-8
     Special(u8),
 }
 
@@ -47,6 +48,7 @@ fn leaf_types(level: usize) -> Vec<T> {
     v.push(T::Special(0));
     v.push(T::Special(1));
     v.push(T::Special(2));
+    v.push(T::Special(3));
     let _ = level;
     v
 }
@@ -115,6 +117,11 @@ fn put_tree(s: &mut Snapshot, prefix: &str, entries: &[T], root: &Path, depth: u
             T::File => s.insert(&key, Node::File { mode: 0o444, data: b"x".to_vec() }),
             T::Link(k) => s.insert(&key, Node::Link { target: link_target(*k, root, depth, i) }),
             T::Special(2) => s.insert(&key, Node::Other { what: "hardlink:outside/file".into() }),
+            T::Special(3) => {
+                let mut raw = key.clone().into_bytes();
+                raw.extend_from_slice(b"-caf\xe9");
+                s.0.insert(raw, Node::File { mode: 0o644, data: b"x".to_vec() });
+            }
             T::Special(k) => s.insert(&key, Node::Other { what: if *k == 0 { "fifo".into() } else { "socket".into() } }),
             T::Dir(m, kids) => {
                 s.insert(&key, Node::Dir { mode: *m });
@@ -331,7 +338,7 @@ impl Drop for Worker {
 fn only_benign(tree: &[T]) -> bool {
     tree.iter().all(|t| match t {
         T::File => true,
-        T::Special(k) => *k < 2,
+        T::Special(k) => *k != 2,
         T::Link(k) => [0u8, 1, 7, 8, 9].contains(k),
         T::Dir(_, kids) => only_benign(kids),
     })
@@ -487,7 +494,7 @@ pub fn run(args: &Args) {
     rep.cov("trees", cases.len() as u64);
     rep.cov("distinct_nontrivial", nontrivial);
     rep.cov("distinct_outcomes", json!(outcomes));
-    rep.cov("rule", "every multiset tree of <= N nodes over {file(0444), dir x modes {755,555,666,000} with children, FIFO, UNIX socket, a hard link to the canary file outside (its mode and content must survive), 10 symlink kinds (inside file/dir, sibling layer dir/file, outside dir/file absolute and relative, dangling, self loop, pair loop)}, two levels, <= 3 entries per directory; plus layer path / a.toml being symlinks (a.toml also dangling), the layer addressed as `a/`, and a read-only (0555) layers directory (each with every <=2-node tree), and the layer as the only entry of a 0750 layers directory; each x 3 operations (uncached_layer over existing, cached_layer Delete, handle_layer Recreate) x {root, uid 65534 owner}; non-trivial = trees containing a directory or symlink, or a top-level variant");
+    rep.cov("rule", "every multiset tree of <= N nodes over {file(0444), dir x modes {755,555,666,000} with children, FIFO, UNIX socket, a hard link to the canary file outside (its mode and content must survive), a file whose name is not UTF-8, 10 symlink kinds (inside file/dir, sibling layer dir/file, outside dir/file absolute and relative, dangling, self loop, pair loop)}, two levels, <= 3 entries per directory; plus layer path / a.toml being symlinks (a.toml also dangling), the layer addressed as `a/`, and a read-only (0555) layers directory (each with every <=2-node tree), and the layer as the only entry of a 0750 layers directory; each x 3 operations (uncached_layer over existing, cached_layer Delete, handle_layer Recreate) x {root, uid 65534 owner}; non-trivial = trees containing a directory or symlink, or a top-level variant");
     rep.cov("bound", json!({"max_nodes": budget, "levels": 2, "ops": OPS, "uids": [0, NOBODY]}));
     rep.cov("exhaustive", true);
     rep.sample(json!(cases[cases.len() / 2]));
